@@ -34,6 +34,37 @@ def seeded_table():
     return rows
 
 
+SUMMARY = re.compile(r"^(C\d\d) tier=(\w+) evaluations=(\d+) distinct_nontrivial=(\d+) outcomes=(\S+) states=(\S+) "
+                     r"transitions=(\S+) violations=(\d+) known=(\d+) wall=([\d.]+)s exhaustive=(\w+)")
+
+
+def measured(log_paths):
+    """Fold the summary lines of run logs into measured.json (committed; last value per property and tier wins)."""
+    mp = os.path.join(ROOT, "measured.json")
+    m = json.load(open(mp)) if os.path.exists(mp) else {}
+    for lp in log_paths:
+        for line in open(lp, errors="replace"):
+            g = SUMMARY.match(line)
+            if g:
+                m.setdefault(g.group(1), {})[g.group(2)] = {
+                    "evaluations": int(g.group(3)), "distinct_nontrivial": int(g.group(4)), "states": g.group(6),
+                    "transitions": g.group(7), "violations": int(g.group(8)), "known": int(g.group(9)),
+                    "wall_s": float(g.group(10)), "exhaustive": g.group(11)}
+    json.dump(m, open(mp, "w"), indent=1, sort_keys=True)
+    return m
+
+
+def cost_table(m):
+    rows = ["| property | quick: evaluations / states / wall | thorough: evaluations / states / wall |", "|---|---|---|"]
+    for pid in sorted(m):
+        cells = []
+        for tier in ("quick", "thorough"):
+            d = m[pid].get(tier)
+            cells.append("—" if not d else f"{d['evaluations']:,} / {d['states'] if d['states'] != 'None' else '—'} / {d['wall_s']:.0f} s")
+        rows.append(f"| {pid} | {cells[0]} | {cells[1]} |")
+    return rows
+
+
 def replace_table(text, header, rows):
     lines = text.split("\n")
     i = lines.index(header)
@@ -44,8 +75,14 @@ def replace_table(text, header, rows):
 
 
 def main():
+    import sys
+
     p = os.path.join(ROOT, "DESIGN.md")
     text = open(p).read()
+    m = measured(sys.argv[1:])
+    crow = cost_table(m)
+    if crow[0] in text:
+        text = replace_table(text, crow[0], crow)
     frows, summary = findings_table()
     text = replace_table(text, frows[0], frows)
     text = re.sub(r"\d+ findings are fixed by \d+ commits, \d+ are open\.", summary, text)
